@@ -425,6 +425,7 @@ def check(rep):
                 'consume, feed (unsolicited deliveries), get (body split in 1..k frames), confirm-publish ack/nack} x one random schedule '
                 '(line-level pre-emption, partial sends, chunked reads); distinct = distinct recorded choice sequences; non-trivial = at least '
                 'two threads used the same channel or an unsolicited frame was dispatched while a request was registered')
+    rep.rule += '; plus: broker-initiated and application cancels while other threads hold the channel lock, channels opened/used/closed by several threads at once (churn), and a channel closed and re-opened between calls (parked return; broker close in confirm mode) - the last judged by the monitor only'
     rep.assumptions = [
         'in trace-replayed runs the four instrumented Rpc methods run without line-level pre-emption inside them (the model treats them as atomic steps); every 4th run pre-empts inside them too and is judged by the monitor only',
         'the broker answers every request (no timeouts, no aborted calls): the premise "when the broker answers promptly"',
